@@ -279,6 +279,11 @@ func Generate(r *rng.R, g GenConfig) *History {
 		case 6:
 			if r.Bool() {
 				h.Steps = append(h.Steps, Step{Op: "D", C: c})
+				if g.Presence && r.Bool() {
+					// the same client attaches again right away (a fresh document instance): what its
+					// earlier session pushed comes back to it
+					h.Steps = append(h.Steps, Step{Op: "A", C: c})
+				}
 			} else {
 				h.Steps = append(h.Steps, Step{Op: "A", C: c})
 			}
